@@ -203,7 +203,12 @@ def pendingType (s : St) : Kind :=
     | none => .unknown
     | some fd => fd.kind
 
+/-- `uv__stream_init` of *any* stream on the loop (stream.c:101-110): re-opens the spare descriptor
+when it is missing; `ok` = the open succeeded -/
+def streamInit (s : St) (ok : Bool) : St := { s with spare := s.spare || ok }
+
 inductive Op
+  | streamInit (ok : Bool)
   | ioBegin (r : AcceptRes) (t : Trick)
   | ioEnd
   | accept (c : ClientTy) (openErr : Int)
@@ -212,6 +217,7 @@ inductive Op
 deriving Repr
 
 def step (s : St) : Op → St
+  | .streamInit ok => streamInit s ok
   | .ioBegin r t => ioBegin s r t
   | .ioEnd => ioEnd s
   | .accept c e => (uvAccept s c e).1
